@@ -62,6 +62,9 @@ def instances(tier, seed):
     return out
 
 
+# bond lists in which some atom index below the largest bonded one has no bond (a free ion / guest atom stored first, a fragment's bond list)
+GRAPHS['gap-first-atom-unbonded'] = [(1, 2), (2, 3), (3, 4)]
+GRAPHS['gap-in-the-middle'] = [(0, 1), (1, 3), (3, 4), (3, 5)]
 GRAPHS['branched5'] = [(0, 1), (1, 2), (1, 3), (3, 4)]
 GRAPHS['chain5'] = [(0, 1), (1, 2), (2, 3), (3, 4)]
 
